@@ -40,6 +40,7 @@ def run(prog, tier):
     R = Result(P, EXPLANATION)
     fam.run_family(R, prog, P, MEMBERS, 40, DELEGATES)
     fam.check_unique_neighborhoods(R, prog, P)
+    check_tseitin_charges(R, prog)
     fam.cli_roles(R, prog, P, MEMBERS, 10)
     table = builder_table(prog)
     fam.borrow(R, P, "MECHANISM", prog, c04.check_parity, floor=1)
@@ -53,3 +54,74 @@ def run(prog, tier):
     R.trust("the axiom table sa/props/_family_specs.py is a faithful transcription of the documented graph property of each family",
             "parity / cardinality clause blasting is correct once op / threshold / sign handling is (C04)")
     return R
+
+
+def check_tseitin_charges(R, prog):
+    """CHARGE: TseitinFormula, folded over stand-in graphs with a recording formula, adds for every vertex one parity constraint over the
+    edges at that vertex whose constant is exactly 1 when the vertex's charge is odd / true and exactly 0 otherwise (missing charges
+    are even, the default is one odd charge on the first vertex); the charge vector handed in is left as it was."""
+    from ..fold import Folder, Raised
+    from ..ql import Unknown
+    from .. import standins as S
+    from ..report import Finding
+    fi = prog.func("cnfgen.families.tseitin", "TseitinFormula")
+
+    class Grp:
+        def __init__(self, G):
+            self.ids = {e: i + 1 for i, e in enumerate(G.edges())}
+
+        def __call__(self, u, v):
+            return self.ids[(min(u, v), max(u, v))]
+
+    class Rec:
+        def __init__(self, description=None, **kw):
+            self.par, self.other = [], []
+
+        def new_graph_edges(self, G, label=None):
+            self.g = Grp(G)
+            return self.g
+
+        def add_parity(self, lits, c, check=True):
+            self.par.append((sorted(lits), c))
+
+        def add_clause(self, c, check=True):
+            self.other.append(list(c))
+    graphs = [S.Graph.make(1, []), S.Graph.make(3, [(1, 2), (2, 3), (1, 3)]), S.Graph.make(4, [(1, 2), (3, 4), (2, 3)]), S.Graph.make(3, [(1, 2)])]
+    cnt = 0
+    bad = None
+    try:
+        for G in graphs:
+            n = G.order()
+            vectors = [None, [1] * n, [0] * n, [True] + [False] * (n - 1), [3] + [0] * (n - 1), [0] * (n - 1) + [5], [1], [], tuple([1] * n), [2, 1, 1][:n], [-1] * n]
+            for ch in vectors:
+                given = list(ch) if isinstance(ch, list) else ch
+                f = Folder(env={})
+                f.globals = {"Graph": S.Graph, "CNF": Rec}
+                what = "TseitinFormula on the graph with %d vertices and edges %s, charges %r" % (n, G.edges(), ch)
+                try:
+                    out = f.call_function(fi.node, [G] + ([] if ch is None else [ch]), {"formula_class": Rec})
+                except Raised as r:
+                    bad = "%s raises %s" % (what, r.cls)
+                    break
+                if isinstance(ch, list) and ch != given:
+                    bad = "%s changes the charge vector of its caller to %r" % (what, ch)
+                    break
+                want_ch = [1] + [0] * (n - 1) if ch is None else [1 if (i < len(ch) and ch[i]) else 0 for i in range(n)]
+                if not isinstance(out, Rec) or out.other:
+                    bad = "%s does not return a formula made of parity constraints only" % what
+                    break
+                want = [(sorted(out.g(u, v) for u in G.neighbors(v)), want_ch[v - 1]) for v in G.vertices()]
+                got = [(l, c) for l, c in out.par]
+                if len(got) != len(want) or any(gl != wl or (gc == 1) != (wc == 1) or gc not in (0, 1) for (gl, gc), (wl, wc) in zip(got, want)):
+                    bad = "%s adds the parity constraints %s; one per vertex over its edges with the constants %s (exactly 0 or 1) expected" % (what, got, [w[1] for w in want])
+                    break
+                cnt += 1
+            if bad:
+                break
+    except Unknown as e:
+        R.unknown("CHARGE", "TseitinFormula charges", fi.key, "cannot fold TseitinFormula: %s" % e)
+        return
+    if bad:
+        R.bad(Finding(P, "CHARGE", fi, "TseitinFormula charges", bad))
+    else:
+        R.ok("CHARGE", "TseitinFormula: %d (graph, charge vector) instances folded; each vertex gets the parity of its own charge, as exactly 0 or 1" % cnt, fi.key)
